@@ -306,7 +306,17 @@ static void compare(struct context_data *ctx, struct snapshot *s, int opidx, con
 				{
 					int bytelen = b->len * ((b->flg & XMP_SAMPLE_16BIT) ? 2 : 1) * ((b->flg & XMP_SAMPLE_STEREO) ? 2 : 1);
 					const char *sig = o < 0 ? "sample-guard-front" : (o >= bytelen ? "sample-guard-rear" : "sample-data");
-					fail(sig, opidx, opname, "sample %ld byte at data%+ld changed (loop start*framesize.. see header; len bytes %ld)", i, o, bytelen);
+					fail(sig, opidx, opname, "sample %ld byte at data%+ld changed (sample data is %ld bytes)", i, o, bytelen);
+					if (verbose) {
+						int c;
+						printf("note sample %d flg=%#x len=%d lps=%d lpe=%d old=%02x new=%02x\n", i, b->flg, b->len, b->lps, b->lpe,
+						       sd->copy[k], sd->begin[k]);
+						for (c = 0; ctx->p.xc_data && c < ctx->p.virt.virt_channels; c++) {
+							struct channel_data *xc = &ctx->p.xc_data[c];
+							printf("note chn %d ins=%d smp=%d invloop speed=%d count=%d pos=%d\n", c, xc->ins, xc->smp,
+							       xc->invloop.speed, xc->invloop.count, xc->invloop.pos);
+						}
+					}
 				}
 				break;
 			}
